@@ -39,14 +39,24 @@ pub fn control_objects_n(r: &mut Rng, n_headers: usize, max_count: u64) -> Vec<u
         let kind = r.below(5);
         let obj = |r: &mut Rng| -> Vec<u8> {
             match kind {
-                0 => crob(*r.pick(&[0x01u8, 0x03, 0x04, 0x41, 0x81]), r.range(1, 3) as u8, r.u32() % 5000, r.u32() % 5000, 0),
+                0 => crob(
+                    *r.pick(&[0x01u8, 0x03, 0x04, 0x41, 0x81]),
+                    r.range(1, 3) as u8,
+                    r.u32() % 5000,
+                    r.u32() % 5000,
+                    0,
+                ),
                 1 => ao_i32(r.u32() as i32, 0),
                 2 => ao_i16(r.u16() as i16, 0),
                 3 => ao_f32(r.u32() as f32 / 7.0, 0),
                 _ => ao_f64(r.u64() as f64 / 3.0, 0),
             }
         };
-        let (g, v) = if kind == 0 { (12u8, 1u8) } else { (41u8, kind as u8) };
+        let (g, v) = if kind == 0 {
+            (12u8, 1u8)
+        } else {
+            (41u8, kind as u8)
+        };
         if r.bool() {
             let items: Vec<(u8, Vec<u8>)> = (0..count).map(|_| (r.u8(), obj(r))).collect();
             b = b.prefixed8(g, v, &items);
@@ -93,7 +103,8 @@ fn good_header(r: &mut Rng, func: u8) -> Vec<u8> {
     match func {
         F_WRITE => b.range8(80, 1, 7, 7, &[0]).bytes,
         F_SELECT | F_OPERATE | F_DIRECT_OPERATE | F_DIRECT_OPERATE_NR => control_objects(r, 1),
-        F_IMMED_FREEZE | F_FREEZE_CLEAR | F_IMMED_FREEZE_NR | F_FREEZE_CLEAR_NR => match r.below(3) {
+        F_IMMED_FREEZE | F_FREEZE_CLEAR | F_IMMED_FREEZE_NR | F_FREEZE_CLEAR_NR => match r.below(3)
+        {
             0 => b.all(20, 0).bytes,
             1 => b.range8(20, 0, 1, 4, &[]).bytes,
             _ => b.range16(20, 0, 0, 300, &[]).bytes,
@@ -105,7 +116,13 @@ fn good_header(r: &mut Rng, func: u8) -> Vec<u8> {
             2 => b.range8(1, 0, 0, 9, &[]).bytes,
             3 => b.range16(30, r.range(0, 6) as u8, 0, 20, &[]).bytes,
             4 => b.count8(60, 2, r.range(1, 5) as u8, &[]).bytes,
-            _ => b.all(r.pick_copy(&[1u8, 3, 10, 20, 21, 30, 40, 2, 4, 11, 22, 23, 32, 42]), 0).bytes,
+            _ => {
+                b.all(
+                    r.pick_copy(&[1u8, 3, 10, 20, 21, 30, 40, 2, 4, 11, 22, 23, 32, 42]),
+                    0,
+                )
+                .bytes
+            }
         },
         _ => vec![],
     }
@@ -127,10 +144,27 @@ pub fn broken_objects(r: &mut Rng) -> (Vec<u8>, &'static str) {
 
 /// functions the outstation executes and answers
 pub const RESPONDING: [u8; 14] = [
-    F_READ, F_WRITE, F_SELECT, F_OPERATE, F_DIRECT_OPERATE, F_IMMED_FREEZE, F_FREEZE_CLEAR, F_FREEZE_AT_TIME,
-    F_COLD_RESTART, F_WARM_RESTART, F_ENABLE_UNSOL, F_DISABLE_UNSOL, F_DELAY_MEASURE, F_RECORD_CURRENT_TIME,
+    F_READ,
+    F_WRITE,
+    F_SELECT,
+    F_OPERATE,
+    F_DIRECT_OPERATE,
+    F_IMMED_FREEZE,
+    F_FREEZE_CLEAR,
+    F_FREEZE_AT_TIME,
+    F_COLD_RESTART,
+    F_WARM_RESTART,
+    F_ENABLE_UNSOL,
+    F_DISABLE_UNSOL,
+    F_DELAY_MEASURE,
+    F_RECORD_CURRENT_TIME,
 ];
-pub const NO_REPLY: [u8; 4] = [F_DIRECT_OPERATE_NR, F_IMMED_FREEZE_NR, F_FREEZE_CLEAR_NR, F_FREEZE_AT_TIME_NR];
+pub const NO_REPLY: [u8; 4] = [
+    F_DIRECT_OPERATE_NR,
+    F_IMMED_FREEZE_NR,
+    F_FREEZE_CLEAR_NR,
+    F_FREEZE_AT_TIME_NR,
+];
 
 /// generate one request for the well-formedness property (C12)
 pub fn c12_request(r: &mut Rng, seq: u8, unsol_enabled_in_config: bool, max_len: usize) -> Req {
@@ -151,9 +185,21 @@ fn c12_request_inner(r: &mut Rng, seq: u8, unsol_enabled_in_config: bool, max_le
         let per = (max_len.min(2040) / 13 / nh).max(2) as u64;
         let objs = control_objects_n(r, nh, per);
         let b = B::request(func, seq).raw(&objs);
-        return Req { bytes: b.done(), func, seq, class: format!("ok-large/f{func}"), expect: Expect::Response };
+        return Req {
+            bytes: b.done(),
+            func,
+            seq,
+            class: format!("ok-large/f{func}"),
+            expect: Expect::Response,
+        };
     }
-    let mk = |bytes: Vec<u8>, func: u8, class: String, expect: Expect| Req { bytes, func, seq, class, expect };
+    let mk = |bytes: Vec<u8>, func: u8, class: String, expect: Expect| Req {
+        bytes,
+        func,
+        seq,
+        class,
+        expect,
+    };
     if class < 22 {
         // (1) well-formed, acceptable
         let func = r.pick_copy(&RESPONDING);
@@ -173,14 +219,24 @@ fn c12_request_inner(r: &mut Rng, seq: u8, unsol_enabled_in_config: bool, max_le
             }
         }
         // enable/disable are rejected when unsolicited support is off
-        let expect = if (func == F_ENABLE_UNSOL || func == F_DISABLE_UNSOL) && !unsol_enabled_in_config { Expect::Response } else { Expect::Response };
+        let expect =
+            if (func == F_ENABLE_UNSOL || func == F_DISABLE_UNSOL) && !unsol_enabled_in_config {
+                Expect::Response
+            } else {
+                Expect::Response
+            };
         return mk(b.done(), func, format!("ok/f{func}"), expect);
     }
     if class < 34 {
         // (2) no-reply functions and confirms, well-formed
         if r.chance(1, 3) {
             let uns = r.bool();
-            return mk(B::confirm(seq, uns).done(), F_CONFIRM, format!("confirm/uns{}", uns as u8), Expect::NoReply);
+            return mk(
+                B::confirm(seq, uns).done(),
+                F_CONFIRM,
+                format!("confirm/uns{}", uns as u8),
+                Expect::NoReply,
+            );
         }
         let func = r.pick_copy(&NO_REPLY);
         let mut b = B::request(func, seq);
@@ -215,11 +271,30 @@ fn c12_request_inner(r: &mut Rng, seq: u8, unsol_enabled_in_config: bool, max_le
         if (func == F_RESPONSE || func == F_UNSOL_RESPONSE) && bytes.len() < 4 {
             bytes.extend_from_slice(&[0, 0]);
         }
-        return mk(bytes, func, format!("badfunc/{}", if func > 33 && func < 129 || func > 131 { "undefined" } else { "defined-unsupported" }), Expect::Error);
+        return mk(
+            bytes,
+            func,
+            format!(
+                "badfunc/{}",
+                if func > 33 && func < 129 || func > 131 {
+                    "undefined"
+                } else {
+                    "defined-unsupported"
+                }
+            ),
+            Expect::Error,
+        );
     }
     if class < 62 {
         // (4) bad header flags on an otherwise fine request
-        let func = r.pick_copy(&[F_READ, F_WRITE, F_SELECT, F_DIRECT_OPERATE, F_DELAY_MEASURE, F_ENABLE_UNSOL]);
+        let func = r.pick_copy(&[
+            F_READ,
+            F_WRITE,
+            F_SELECT,
+            F_DIRECT_OPERATE,
+            F_DELAY_MEASURE,
+            F_ENABLE_UNSOL,
+        ]);
         let flags = match r.below(5) {
             0 => FIN,
             1 => FIR,
@@ -229,11 +304,27 @@ fn c12_request_inner(r: &mut Rng, seq: u8, unsol_enabled_in_config: bool, max_le
         };
         let mut b = B::with_ctrl(flags | seq, func);
         b = b.raw(&good_header(r, func));
-        return mk(b.done(), func, format!("badflags/{:02x}", flags), Expect::Error);
+        return mk(
+            b.done(),
+            func,
+            format!("badflags/{:02x}", flags),
+            Expect::Error,
+        );
     }
     if class < 78 {
         // (5) object parse failures
-        let func = r.pick_copy(&[F_READ, F_WRITE, F_SELECT, F_OPERATE, F_DIRECT_OPERATE, F_IMMED_FREEZE, F_FREEZE_CLEAR, F_FREEZE_AT_TIME, F_ENABLE_UNSOL, F_DISABLE_UNSOL]);
+        let func = r.pick_copy(&[
+            F_READ,
+            F_WRITE,
+            F_SELECT,
+            F_OPERATE,
+            F_DIRECT_OPERATE,
+            F_IMMED_FREEZE,
+            F_FREEZE_CLEAR,
+            F_FREEZE_AT_TIME,
+            F_ENABLE_UNSOL,
+            F_DISABLE_UNSOL,
+        ]);
         let (bad, why) = broken_objects(r);
         let mut b = B::request(func, seq);
         let pos = r.below(3);
@@ -245,12 +336,31 @@ fn c12_request_inner(r: &mut Rng, seq: u8, unsol_enabled_in_config: bool, max_le
         }
         b = b.raw(&bad);
         // READ never carries object data, so "truncated-data" ranges are complete READ headers
-        let expect = if func == F_READ && (why == "truncated-data") { Expect::Unconstrained } else { Expect::Error };
-        return mk(b.done(), func, format!("badobj/{why}/f{func}/pos{pos}"), expect);
+        let expect = if func == F_READ && (why == "truncated-data") {
+            Expect::Unconstrained
+        } else {
+            Expect::Error
+        };
+        return mk(
+            b.done(),
+            func,
+            format!("badobj/{why}/f{func}/pos{pos}"),
+            expect,
+        );
     }
     if class < 96 {
         // (6,7) a header that is rejected for this function, alone or early / middle / last among good ones
-        let func = r.pick_copy(&[F_READ, F_WRITE, F_SELECT, F_OPERATE, F_DIRECT_OPERATE, F_IMMED_FREEZE, F_FREEZE_CLEAR, F_ENABLE_UNSOL, F_DISABLE_UNSOL]);
+        let func = r.pick_copy(&[
+            F_READ,
+            F_WRITE,
+            F_SELECT,
+            F_OPERATE,
+            F_DIRECT_OPERATE,
+            F_IMMED_FREEZE,
+            F_FREEZE_CLEAR,
+            F_ENABLE_UNSOL,
+            F_DISABLE_UNSOL,
+        ]);
         let n_good = r.below(3) as usize;
         let pos = r.usize_below(n_good + 1);
         let mut b = B::request(func, seq);
@@ -261,11 +371,34 @@ fn c12_request_inner(r: &mut Rng, seq: u8, unsol_enabled_in_config: bool, max_le
                 b = b.raw(&good_header(r, func));
             }
         }
-        let where_ = if n_good == 0 { "only" } else if pos == 0 { "first" } else if pos == n_good { "last" } else { "middle" };
-        return mk(b.done(), func, format!("rejected/f{func}/{where_}"), Expect::Error);
+        let where_ = if n_good == 0 {
+            "only"
+        } else if pos == 0 {
+            "first"
+        } else if pos == n_good {
+            "last"
+        } else {
+            "middle"
+        };
+        return mk(
+            b.done(),
+            func,
+            format!("rejected/f{func}/{where_}"),
+            Expect::Error,
+        );
     }
     // (8) requests without objects for functions that need none / objects where none are allowed
-    let func = r.pick_copy(&[F_DELAY_MEASURE, F_RECORD_CURRENT_TIME, F_COLD_RESTART, F_WARM_RESTART]);
+    let func = r.pick_copy(&[
+        F_DELAY_MEASURE,
+        F_RECORD_CURRENT_TIME,
+        F_COLD_RESTART,
+        F_WARM_RESTART,
+    ]);
     let b = B::request(func, seq).all(60, 1);
-    mk(b.done(), func, format!("unexpected-objects/f{func}"), Expect::Error)
+    mk(
+        b.done(),
+        func,
+        format!("unexpected-objects/f{func}"),
+        Expect::Error,
+    )
 }
